@@ -208,6 +208,11 @@ class ShapeEval:
             return out
         if t.k == "try":
             return self.result(t.a[0], shp, depth + 1)
+        if t.k == "call" and len(t.a) >= 2 and t.a[0].startswith("core::result::Result") and \
+                t.a[0].rsplit("::", 1)[-1] in ("cloned", "copied", "map"):
+            # Ok stays Ok and Err stays Err under these (the mapped function is a constructor / clone)
+            if t.a[0].rsplit("::", 1)[-1] != "map" or (len(t.a) == 3 and t.a[2].k == "fnitem"):
+                return self.result(t.a[1], shp, depth + 1)
         return {"?"}
 
 
